@@ -7,6 +7,8 @@
 //
 //	new <mtu> <frag> <reasm> <ifi> <cm> <thr> <seq> <nthreads> <sscope> <rscope>
 //	      <sscope>/<rscope>: scope of the sending / receiving face's transport, l = Local, n = NonLocal;
+//	      <sscope> = i: the sending face runs on the REAL InternalTransport (management face), whose
+//	      waiting frames are taken out only after sendPacket has returned;
 //	      <mtu> is the MTU the harness CONFIGURES (the SPEC compares frames against this number);
 //	      <nthreads> recording forwarding threads are registered (thread i records index i);
 //	      sender: transport MTU, IsFragmentationEnabled, IsIncomingFaceIndicationEnabled,
@@ -170,7 +172,8 @@ func (r *recThread) GetNumCsEntries() int      { return 0 }
 type world struct {
 	stx, rtx *face.VerifTransport
 	snd, rcv *face.NDNLPLinkService
-	stxB     *face.VerifTransport // a second sending face (never congested, never reconfigured)
+	itx      *face.InternalTransport // sender scope "i": the REAL internal transport carries the frames
+	stxB     *face.VerifTransport    // a second sending face (never congested, never reconfigured)
 	sndB     *face.NDNLPLinkService
 	outs     map[string]dispatch.OutPkt // the packet OBJECTS handed to sendPacket, for `txb`
 	thr      uint64
@@ -301,7 +304,12 @@ func exec(op string) string {
 		so.BaseCongestionMarkingInterval = -time.Hour // the time condition of the marking rule always holds
 		face.VerifSetCongestionMarking(b01(f[5]))
 		nw.thr = so.DefaultCongestionThresholdBytes
-		nw.snd = face.MakeNDNLPLinkService(nw.stx, so)
+		if f[9] == "i" { // the management face's transport: it KEEPS the frames until they are received
+			nw.itx = face.VerifNewInternalTransport(common.Atoi(f[1]), 4096)
+			nw.snd = face.MakeNDNLPLinkService(nw.itx, so)
+		} else {
+			nw.snd = face.MakeNDNLPLinkService(nw.stx, so)
+		}
 		nw.snd.SetFaceID(11)
 		nw.stxB = face.VerifNewTransport(common.Atoi(f[1]), defn.NonLocal)
 		nw.sndB = face.MakeNDNLPLinkService(nw.stxB, so)
@@ -342,6 +350,10 @@ func exec(op string) string {
 		w.stx.Frames = nil
 		face.VerifSendPacket(w.snd, out)
 		fr := w.stx.Frames
+		if w.itx != nil {
+			// received late: only after sendPacket has handed over ALL frames of the packet
+			fr = face.VerifInternalDrain(w.itx)
+		}
 		w.frames[f[1]] = fr
 		w.pkts[f[1]] = append([]byte(nil), wire...)
 		w.outs[f[1]] = out
@@ -498,7 +510,7 @@ func gen(g *common.Gen) {
 			seq = r.U64()
 		}
 		nth := common.Pick(r, []int{1, 1, 2, 3, 4, 4, 8})
-		sscope, rscope := common.Pick(r, []string{"n", "n", "l"}), common.Pick(r, []string{"n", "n", "l"})
+		sscope, rscope := common.Pick(r, []string{"n", "n", "l", "n", "l", "i"}), common.Pick(r, []string{"n", "n", "l"})
 		g.Op("new %d %d %d %d %d %d %d %d %s %s", mtu, frag, reasm, ifi, cm, thr, seq, nth, sscope, rscope)
 		g.Stat("scope-send-" + sscope)
 		g.Stat("scope-recv-" + rscope)
@@ -578,7 +590,7 @@ func gen(g *common.Gen) {
 				}
 			}
 			cong := 0
-			if cm == 1 && r.Chance(1, 2) {
+			if cm == 1 && sscope != "i" && r.Chance(1, 2) { // the internal transport reports an empty send queue
 				cong = 1
 			}
 			e := mtu - over // payload bytes per fragment
